@@ -119,7 +119,7 @@ fn run_one<'src, I: HInput<'src>, E: HErr<'src, I>>(
     out
 }
 
-fn run_case_str<'src, E: HErr<'src, &'src str>>(case: &Case, inputs: &'src [String], w: &mut impl Write) {
+pub fn run_case_str<'src, E: HErr<'src, &'src str>>(case: &Case, inputs: &'src [String], w: &mut dyn Write) {
     let built = catch_unwind(AssertUnwindSafe(|| build_case::<&'src str, E>(case)));
     for (k, inp) in inputs.iter().enumerate() {
         let obs = match &built {
@@ -133,7 +133,7 @@ fn run_case_str<'src, E: HErr<'src, &'src str>>(case: &Case, inputs: &'src [Stri
     }
 }
 
-fn run_case_slice<'src, E: HErr<'src, &'src [char]>>(case: &Case, inputs: &'src [Vec<char>], w: &mut impl Write) {
+pub fn run_case_slice<'src, E: HErr<'src, &'src [char]>>(case: &Case, inputs: &'src [Vec<char>], w: &mut dyn Write) {
     let built = catch_unwind(AssertUnwindSafe(|| build_case::<&'src [char], E>(case)));
     for (k, inp) in inputs.iter().enumerate() {
         let obs = match &built {
@@ -151,36 +151,39 @@ fn to_char(t: u32) -> char {
     char::from_u32(t).unwrap_or('\u{fffd}')
 }
 
-pub fn run_case(case: &Case, w: &mut impl Write) {
-    match case.kind {
-        Kind::Str => {
-            let inputs: Vec<String> = case.inputs.iter().map(|ts| ts.iter().map(|&t| to_char(t)).collect()).collect();
-            match case.ek {
-                EK::Rich => run_case_str::<Rich<char, Sp>>(case, &inputs, w),
-                EK::Simple => run_case_str::<Simple<char, Sp>>(case, &inputs, w),
-                EK::Cheap => run_case_str::<Cheap<Sp>>(case, &inputs, w),
-                EK::Empty => run_case_str::<EmptyErr>(case, &inputs, w),
-            }
-        }
-        Kind::Slice => {
-            let inputs: Vec<Vec<char>> =
-                case.inputs.iter().map(|ts| ts.iter().map(|&t| to_char(t)).collect()).collect();
-            match case.ek {
-                EK::Rich => run_case_slice::<Rich<char, Sp>>(case, &inputs, w),
-                EK::Simple => run_case_slice::<Simple<char, Sp>>(case, &inputs, w),
-                EK::Cheap => run_case_slice::<Cheap<Sp>>(case, &inputs, w),
-                EK::Empty => run_case_slice::<EmptyErr>(case, &inputs, w),
-            }
-        }
-        Kind::Mapped(_) => {
-            for k in 0..case.inputs.len() {
-                let _ = writeln!(w, "{}.{} M P harness-error:mapped-unsupported", case.id, k);
-            }
-        }
-    }
+/// error-kind selector (the bins instantiate exactly one kind each, which keeps compile times flat)
+pub trait EKind {
+    type Err<'src>: HErr<'src, &'src str> + HErr<'src, &'src [char]>;
+}
+pub struct RichK;
+pub struct SimpleK;
+pub struct CheapK;
+pub struct EmptyK;
+impl EKind for RichK {
+    type Err<'src> = Rich<'src, char, Sp>;
+}
+impl EKind for SimpleK {
+    type Err<'src> = Simple<'src, char, Sp>;
+}
+impl EKind for CheapK {
+    type Err<'src> = Cheap<Sp>;
+}
+impl EKind for EmptyK {
+    type Err<'src> = EmptyErr;
 }
 
-pub fn main() {
+pub fn case_str<K: EKind>(case: &Case, w: &mut dyn Write) {
+    let inputs: Vec<String> = case.inputs.iter().map(|ts| ts.iter().map(|&t| to_char(t)).collect()).collect();
+    run_case_str::<K::Err<'_>>(case, &inputs, w)
+}
+
+pub fn case_slice<K: EKind>(case: &Case, w: &mut dyn Write) {
+    let inputs: Vec<Vec<char>> = case.inputs.iter().map(|ts| ts.iter().map(|&t| to_char(t)).collect()).collect();
+    run_case_slice::<K::Err<'_>>(case, &inputs, w)
+}
+
+/// read case lines on stdin; lines whose (kind, error kind) is not `want` are answered with a marker
+pub fn main_loop(want: (Kind, EK), f: fn(&Case, &mut dyn Write)) {
     install_panic_hook();
     let stdin = std::io::stdin();
     let stdout = std::io::stdout();
@@ -195,7 +198,13 @@ pub fn main() {
         }
         let mut rd = Rd::new(&line);
         match rd.case() {
-            Ok(case) => run_case(&case, &mut w),
+            Ok(case) => {
+                if (case.kind, case.ek) == want {
+                    f(&case, &mut w)
+                } else {
+                    let _ = writeln!(w, "ERR wrong binary for this case :: {}", case.id);
+                }
+            }
             Err(e) => {
                 let _ = writeln!(w, "ERR {} :: {}", e, line.trim());
             }
